@@ -1,9 +1,22 @@
 package c41
 
 import (
+	"os"
+	"path/filepath"
 	"testing"
+	"time"
 
 	"google.golang.org/protobuf/zverif/pbt"
 )
 
-func TestMain(m *testing.M) { pbt.Main(m, "C41") }
+func TestMain(m *testing.M) {
+	// scratch directories of processes that died before TestZZZCleanup
+	if old, _ := filepath.Glob(filepath.Join(os.TempDir(), "verif-c41-*")); len(old) > 0 {
+		for _, o := range old {
+			if st, err := os.Stat(o); err == nil && time.Since(st.ModTime()) > 2*time.Hour {
+				os.RemoveAll(o)
+			}
+		}
+	}
+	pbt.Main(m, "C41")
+}
